@@ -28,7 +28,7 @@ ASSUMPTIONS = ["a day with valid temperature: daily feed = value present; hourly
                "fractional day counts (DST days, hourly rows) are not judged within 1 day of a threshold: the statement does not say how they round"]
 REQUIRED_REACH = {"dataset.judged": 100, "criterion.judged": 500, "criterion.expected_dq": 60, "criterion.exact_threshold": 10,
                   "warning.condition_generated": 20, "post_init.counters": 100, "class.daily": 40, "class.billing": 10, "class.hourly": 10, "entry.billing_from_series": 12,
-                  "entry.billing_from_series_first_and_last_period_differ": 6, "billing.span_on_a_length_threshold": 6, "billing.day_count_compared": 10}
+                  "entry.billing_from_series_first_and_last_period_differ": 6, "billing.span_on_a_length_threshold": 6, "billing.day_count_compared": 10, "negative.only_on_incomplete_rows": 1}
 UNIVERSE = {"no_data", "incorrect_number_of_total_days", "too_many_days_with_missing_data", "too_many_days_with_missing_meter_data",
             "too_many_days_with_missing_temperature_data", "missing_monthly_temperature_data", "missing_monthly_meter_data",
             "missing_monthly_ghi_data", "negative_meter_values"}
@@ -135,7 +135,12 @@ def gen_dataset(rng, spec):
         mt = mu.copy()
     neg = False
     if spec.get("negative"):
-        j = rng.choice(np.flatnonzero(~mu), size=3, replace=False)
+        cand = np.flatnonzero(~mu)
+        if spec.get("negative") == "on-days-without-temperature" and (~mu & mt).any():
+            # every negative reading sits on a day whose temperature is missing (an incomplete row is still a negative reading)
+            cand = np.flatnonzero(~mu & mt)
+            I.reach("negative.only_on_incomplete_rows")
+        j = rng.choice(cand, size=min(3, len(cand)), replace=False)
         y[j] = -np.abs(y[j])
         neg = True
     if spec.get("extreme"):
@@ -442,7 +447,7 @@ def gen_cases(tier, seed):
                     how_usage=str(rng.choice(hows)), how_temp=str(rng.choice(hows)), same_days=bool(rng.random() < 0.2),
                     gas=bool(rng.random() < 0.3), n=i)
         if spec["gas"] and rng.random() < 0.5:
-            spec["negative"] = True
+            spec["negative"] = True if (i % 3 == 0 or not spec["k_temp"]) else "on-days-without-temperature"
         if rng.random() < 0.15:
             spec["extreme"] = True
         if not spec["gas"] and rng.random() < 0.15 and role == "baseline":
